@@ -102,7 +102,7 @@ PROPS = {
         "oracle_engine": {"handoff": "stream"},
         "trusted": [SYMBOLIC_CRYPTO],
         "technique": "Lean 4 theorems (refusal condition iff, field-exact restore, rejection lemmas) + correspondence over traffic histories with export attempted at every step, chains of hand-offs, all truncations and single-byte corruptions of a blob",
-        "level_text": "export_refused_iff, export_contents, import_export (all crypto/framing fields restored verbatim), decode_encode + blob_roundtrip (parsing the bytes written gives back exactly the fields, for every key/IV/counter/flag/digest/peer value in range), handoff_transparent (for EVERY sequence of sends, buffered writes, message ends, secrets, crypto toggles and receives of arbitrary frames the imported stream emits the same frames and delivers the same messages as the exporting stream would - a simulation proved operation by operation), handoff_chain (hand-offs compose), import_rejects_truncated (EVERY strict prefix of a well-formed blob is rejected), import_rejects_{short,magic,version}, import_identity / import_around_eq (whatever connection the stream is rebuilt around, it reports the exporter's authentication status and the exporter's peer address; only a session that never knew its peer takes the new connection's): kernel-checked. With C02.recv_prefix_midstream and C12.nonce_sequence this gives the authentic-prefix and no-nonce-reuse guarantees after the hand-off. Tied to the code by the handoff engine (connections with remote addresses, authentication status and peer address set and changed, import around a connection with ANOTHER remote address and IsAuthenticated/GetPeerAddr compared with the exporter's; export at clean and unclean points on either end incl. a message in progress with nothing consumed (also an empty one), everything consumed but not ended, bytes buffered by WriteMessage, unread inbound messages waiting on the connection; chained hand-offs, continued two-way traffic checked by refcodec, every truncation/corruption of a valid blob, versions 0/2/3/0x0100/0x0101/0x7fff/0x8001/0xffff, case-flipped/rotated/shifted magic).",
+        "level_text": "(engine, round 8) export after StartMessageRead consumed the leading frames of a message and then failed must be refused - implementation-side property oracle, the stream model has no op for a receive that fails after consuming frames; export_refused_iff, export_contents, import_export (all crypto/framing fields restored verbatim), decode_encode + blob_roundtrip (parsing the bytes written gives back exactly the fields, for every key/IV/counter/flag/digest/peer value in range), handoff_transparent (for EVERY sequence of sends, buffered writes, message ends, secrets, crypto toggles and receives of arbitrary frames the imported stream emits the same frames and delivers the same messages as the exporting stream would - a simulation proved operation by operation), handoff_chain (hand-offs compose), import_rejects_truncated (EVERY strict prefix of a well-formed blob is rejected), import_rejects_{short,magic,version}, import_identity / import_around_eq (whatever connection the stream is rebuilt around, it reports the exporter's authentication status and the exporter's peer address; only a session that never knew its peer takes the new connection's): kernel-checked. With C02.recv_prefix_midstream and C12.nonce_sequence this gives the authentic-prefix and no-nonce-reuse guarantees after the hand-off. Tied to the code by the handoff engine (connections with remote addresses, authentication status and peer address set and changed, import around a connection with ANOTHER remote address and IsAuthenticated/GetPeerAddr compared with the exporter's; export at clean and unclean points on either end incl. a message in progress with nothing consumed (also an empty one), everything consumed but not ended, bytes buffered by WriteMessage, unread inbound messages waiting on the connection; chained hand-offs, continued two-way traffic checked by refcodec, every truncation/corruption of a valid blob, versions 0/2/3/0x0100/0x0101/0x7fff/0x8001/0xffff, case-flipped/rotated/shifted magic).",
         "level_note": "fd passing itself out of scope; digests are carried as opaque bytes after import (unused once both first frames passed).",
         "assumptions": ["the blob travels over a trusted local channel (as documented)"],
     },
